@@ -253,13 +253,30 @@ func (s *settings) GetBySwampName(swampName name.Name) setting.Setting {
 	s.mu.RLock()
 	defer s.mu.RUnlock()
 
-	if len(s.patterns) > 0 {
-		for _, pi := range s.patterns {
-			// compare if the pattern is math with the swamp name
-			if swampName.ComparePattern(pi.GetPattern()) {
-				return pi
-			}
+	// Several registered patterns can match the same swamp (exact name, realm wildcard, swamp
+	// wildcard). The most specific one wins - map iteration order must not decide it, otherwise
+	// the same swamp could come up in-memory once and persistent the next time.
+	var best setting.Setting
+	bestScore := -1
+	for _, pi := range s.patterns {
+		p := pi.GetPattern()
+		// compare if the pattern is math with the swamp name
+		if !swampName.ComparePattern(p) {
+			continue
 		}
+		score := 0
+		if p.GetRealmName() != "*" {
+			score += 2
+		}
+		if p.GetSwampName() != "*" {
+			score++
+		}
+		if score > bestScore || (score == bestScore && p.Get() < best.GetPattern().Get()) {
+			best, bestScore = pi, score
+		}
+	}
+	if best != nil {
+		return best
 	}
 
 	// ha nem találunk olyan beállítást, ami a megadott mintához tartozik, akkor visszaadjuk az alapértelmezett beállítást
